@@ -12,6 +12,7 @@ give the same graph.
 """
 
 import collections
+import logging
 import random
 
 import egsim  # noqa: F401
@@ -32,6 +33,8 @@ EDGES = [
     "BondEdge",  # value equality: a--b == b--a
     "LabelledEdge",  # class-level default overridden per instance through attributes=
     "NestingEdge",  # its __init__ calls randgraph itself (re-entrant use of the builder)
+    "SpanEdge",  # instances are falsy until both ends are attached
+    "ArcEdge",  # __repr__ reads both ends (raises on a half-built edge)
 ]
 
 
@@ -103,11 +106,40 @@ def call(op):
         kw["connectivity"] = op["conn"]
     if "ensure" in op:
         kw["ensurelink"] = op["ensure"]
-    mode = op.get("bias")
-    if mode:
-        with Biased(mode):
-            return RG.randgraph(**kw)
-    return RG.randgraph(**kw)
+    with DebugLogging(bool(op.get("debug_log"))):
+        mode = op.get("bias")
+        if mode:
+            with Biased(mode):
+                return RG.randgraph(**kw)
+        return RG.randgraph(**kw)
+
+
+class DebugLogging:
+    """
+    Process-wide setting seam: the `edgegraph` logger tree at DEBUG (records go
+    to a null handler) for the duration of one call.
+    """
+
+    _null = logging.NullHandler()
+
+    def __init__(self, on):
+        self.on = on
+
+    def __enter__(self):
+        if self.on:
+            lg = logging.getLogger("edgegraph")
+            self.saved = (lg.level, lg.propagate)
+            lg.addHandler(self._null)
+            lg.setLevel(logging.DEBUG)
+            lg.propagate = False
+
+    def __exit__(self, *exc):
+        if self.on:
+            lg = logging.getLogger("edgegraph")
+            lg.setLevel(self.saved[0])
+            lg.propagate = self.saved[1]
+            lg.removeHandler(self._null)
+        return False
 
 
 class St:
@@ -141,6 +173,7 @@ class C20(engine.Property):
         "generator states are sampled, not enumerated",
     ]
     expected_probes = [
+        "debug-logging-on-during-the-call",
         "edge-class-that-calls-randgraph-itself",
         "count-1",
         "count<=5-default-connectivity",
@@ -162,6 +195,7 @@ class C20(engine.Property):
             "p_bias": rng.choice([0.0, 0.2, 0.5]),
             "p_continue": rng.choice([0.0, 0.3, 0.6]),
             "max_count": rng.choice([6, 15, 40]),
+            "p_debug_log": rng.choice([0.0, 0.0, 0.3]),
         }
 
     def start(self, cfg):
@@ -192,6 +226,9 @@ class C20(engine.Property):
             op["reseed"] = None
         else:
             op["reseed"] = rng.getrandbits(32)
+        if rng.random() < cfg.get("p_debug_log", 0.0):
+            # the application has turned debug logging on for the library
+            op["debug_log"] = True
         return op
 
     def execute(self, st, op):
@@ -202,6 +239,9 @@ class C20(engine.Property):
         ensure = op.get("ensure", True)
         if count == 1:
             s["probe:count-1"] += 1
+        if op.get("debug_log"):
+            s["probe:debug-logging-on-during-the-call"] += 1
+            s["fault:process-wide-setting-changed"] += 1
         if op.get("edge") == "NestingEdge":
             s["probe:edge-class-that-calls-randgraph-itself"] += 1
             s["fault:reentrant-call-from-subclass-override"] += 1
